@@ -1058,6 +1058,10 @@ func caseBatch(c *core.Ctx, r *rand.Rand) {
 			isPresent[i] = true
 		}
 	}
+	if h2 := handedOut(b2, numShards, iv); h2 != b2.Len() {
+		c.Fail("rows-not-of-this-batch-handed-out", fmt.Sprintf("the shuffled batch has %d rows, the shard/family iterators hand out %d", b2.Len(), h2))
+		return
+	}
 	groups, err := replica.VerifC16Write(ik.intervals, int32(numShards), present, 0, 0, b2)
 	seen2 := map[string]int{}
 	var parts2 []string
@@ -1130,6 +1134,20 @@ func caseBatch(c *core.Ctx, r *rand.Rand) {
 	if anyAbsent {
 		c.Branch("route/rows-for-absent-shard")
 	}
+}
+
+// handedOut counts the rows the shard/family iterators hand out, without reading any of them.
+func handedOut(b *metric.BrokerBatchRows, numShards int, iv timeutil.Interval) int {
+	n := 0
+	it := b.NewShardGroupIterator(int32(numShards))
+	for it.HasRowsForNextShard() {
+		_, fit := it.FamilyRowsForNextShard(iv)
+		for fit.HasNextFamily() {
+			_, rs := fit.NextFamily()
+			n += len(rs)
+		}
+	}
+	return n
 }
 
 // ---------------------------------------------------------------- flat streams through one decoder
